@@ -35,7 +35,7 @@ def run(ctx):
     for (t, l) in rejected:
         ev = rows[t - 1]["ev"][0]
         bad = [k for k in ("panic", "writeErr", "parseErr") if ev[k]] + \
-              [k for k in ("headersEqual", "bodyEqual", "filesEqual", "accessorsEqual", "reserialiseEqual", "chunkIndependent", "earlierBytesStable") if not ev[k]]
+              [k for k in ("headersEqual", "bodyEqual", "filesEqual", "accessorsEqual", "reserialiseEqual", "chunkIndependent", "earlierBytesStable", "reuseIndependent") if not ev[k]]
         key = "C09/" + (bad[0] if bad else "?")
         vlib.report_violation(ctx, key, "round trip of a message built through the API fails (%s): %s %s" % (
             ",".join(bad), json.dumps(ev["desc"])[:200], ev.get("errtext") or ev.get("accdiff") or ""), {"event": ev})
